@@ -158,17 +158,38 @@ def run_shard(binp, scen_path, work, idx):
     prog = os.path.join(work, 'progress_%d' % idx)
     digf = os.path.join(work, 'digest_%d' % idx)
     res = {'shard': idx, 'scen': scen_path, 'trace': trace, 'crash': None, 'fails': [], 'events': 0, 'consumed': 0, 'digests': {}}
-    try:
-        p = subprocess.run([binp, 'run', scen_path, trace, '--progress', prog, '--digest', digf], stdout=subprocess.PIPE,
-                           stderr=subprocess.PIPE, timeout=int(os.environ.get('VERIF_SHARD_TIMEOUT', '90')))
-        rc = p.returncode
-        err = p.stderr.decode('utf-8', 'replace')[-2000:]
-    except subprocess.TimeoutExpired:
-        rc, err = -999, 'timeout'
+    # a hang of the code under test is a scenario that makes no progress: the harness rewrites the progress file at the
+    # start of every scenario (a few ms each); wall-clock time of the whole shard says nothing on a loaded machine
+    stall = int(os.environ.get('VERIF_STALL_TIMEOUT', os.environ.get('VERIF_SHARD_TIMEOUT', '90')))
+    errf = os.path.join(work, 'stderr_%d' % idx)
+    with open(errf, 'wb') as ef:
+        proc = subprocess.Popen([binp, 'run', scen_path, trace, '--progress', prog, '--digest', digf], stdout=subprocess.DEVNULL, stderr=ef)
+        last, since, rc = None, time.time(), None
+        while True:
+            try:
+                rc = proc.wait(timeout=0.5)
+                break
+            except subprocess.TimeoutExpired:
+                pass
+            try:
+                cur = open(prog).read() if os.path.exists(prog) else ''
+            except OSError:
+                cur = last
+            if cur != last:
+                last, since = cur, time.time()
+            elif time.time() - since > stall and (last or time.time() - since > 10 * stall):
+                proc.kill()
+                proc.wait()
+                rc = -999 if last else -998
+                break
+    err = open(errf, 'rb').read()[-2000:].decode('utf-8', 'replace')
+    if rc == -998:
+        res['tool_error'] = 'the harness process did not start executing scenarios within %d s (machine overloaded?)' % (10 * stall)
+        return res
     if rc != 0:
         # the code under test killed the process (abort, segfault) or hung: find the scenario
         cur = open(prog).read().strip() if os.path.exists(prog) else ''
-        res['crash'] = {'rc': rc, 'stderr': err, 'at': cur, 'what': 'timeout (no return within the limit)' if rc == -999 else 'process died'}
+        res['crash'] = {'rc': rc, 'stderr': err, 'at': cur, 'what': 'timeout (no progress within %d s in this scenario)' % stall if rc == -999 else 'process died'}
         try:
             ln = int(cur.split()[0])
             res['crash']['scenario'] = open(scen_path).read().splitlines()[ln]
@@ -197,10 +218,15 @@ def run_shard(binp, scen_path, work, idx):
             return res
     res['events'] = sum(1 for _ in open(trace, 'rb'))
     md = os.path.join(work, 'md_%d' % idx)
-    rc, out = java_tlc(['-workers', '1', '-metadir', md, '-cleanup', '-noGenerateSpecTE', '-config', 'Trace.cfg', 'Trace.tla'],
-                       env={'TRACE': trace}, trace_mode=True, heap='2g', timeout=int(os.environ.get('VERIF_TLC_TIMEOUT', '1800')))
-    shutil.rmtree(md, ignore_errors=True)
-    m = re.search(r'<<"CONSUMED", (\d+), (\d+), "FAILED-CLAUSES", (\d+)>>', out)
+    for attempt in range(3):
+        # a JVM that dies before it reports (killed under memory pressure) is retried; a report is never retried
+        rc, out = java_tlc(['-workers', '1', '-metadir', md, '-cleanup', '-noGenerateSpecTE', '-config', 'Trace.cfg', 'Trace.tla'],
+                           env={'TRACE': trace}, trace_mode=True, heap='2g', timeout=int(os.environ.get('VERIF_TLC_TIMEOUT', '3600')))
+        shutil.rmtree(md, ignore_errors=True)
+        m = re.search(r'<<"CONSUMED", (\d+), (\d+), "FAILED-CLAUSES", (\d+)>>', out)
+        if m or 'Error' in out:
+            break
+        time.sleep(5 * (attempt + 1))
     if not m:
         res['tool_error'] = out[-3000:]
         return res
